@@ -44,7 +44,7 @@ def replay_validate(run, scen_lines, driver_args, trace_module, trace_cfg, label
                 run.violation("%s: the harness process died while driving the real library: %s" % (label, crash[:1500]),
                               {"kind": "crash", "scenarios": job[3][:50], "stderr": (se + so)[-6000:], "driver_args": driver_args})
                 return 0
-            raise Inconclusive("driver failed (%s) rc=%s\n%s" % (label, rc, (se + so)[-3000:]))
+            raise Inconclusive("driver failed (%s) rc=%s (not a crash inside the library)\n%s" % (label, rc, (se + so)[-3000:]))
     tdrive = time.time() - t
 
     def validate(job):
@@ -132,11 +132,23 @@ def reproduce(run, scen_line, driver_args, trace_module, trace_cfg, wd, race, ti
 
 
 def classify_crash(text):
-    """A panic / fatal error of the process that hosts the real library."""
-    for marker in ("panic:", "fatal error:", "WARNING: DATA RACE", "SIGSEGV"):
+    """A panic / fatal error of the process that hosts the real library.  Only a crash whose
+    innermost non-runtime frame is library code (or stdlib called from library code) counts;
+    a panic raised by harness code is a bug of the machinery (-> inconclusive)."""
+    import re
+    for marker in ("panic:", "fatal error:", "SIGSEGV"):
         if marker in text:
             i = text.index(marker)
-            return text[i:i + 3000]
+            tail = text[i:i + 6000]
+            frames = re.findall(r"^([\w./*()\-\[\]·]+)\(.*\)\n\t(\S+):\d+", tail, re.M)
+            for fn, path in frames:
+                if fn.startswith("panic") or fn.startswith("runtime.") or "/src/runtime/" in path:
+                    continue
+                if fn.startswith("github.com/varlink/go/") or "/repo/" in path:
+                    return tail[:3000]
+                if fn.startswith("main.") or "verif/harness" in fn or "/verif/harness" in path:
+                    return None
+            return None
     return None
 
 
